@@ -139,7 +139,7 @@ def run(ctx):
                      relayed=codes(te.relayed(x)), text=x))
   # (ii) series in every order and both syntaxes
   # keys and names over characters both syntaxes can carry (OpenMetrics has no escaping outside values)
-  keyc, valc, namec = 'ab.~', 'ab=!^,{}"\\~', 'ab~.'
+  keyc, valc, namec = 'ab.~\u00e9', 'ab=!^,{}"\\~\u00e9\u4e2d', 'ab~.\u00e9'      # incl. non-ASCII letters
   for _ in range(ctx.pick(120, 1500)):
     nt = rng.randint(0, 4)
     name = ''.join(rng.choice(namec) for _ in range(rng.randint(1, 3)))
